@@ -913,6 +913,37 @@ fn check_sendable(inst: &mut Inst, findings: &mut Vec<Finding>, rep: &mut Report
     let _ = inst.ctx.take_violations();
 }
 
+/// C01, hand-made scenario: writers and readers of distinct resource types that all carry the
+/// same *type name* (block-local types), dispatched on a pool: a reader never runs beside the
+/// writer of its resource (the executor would be told so by a borrow-conflict panic).
+fn c01_same_named_types(rep: &mut Report, case_no: u64) {
+    rep.evaluations += 1;
+    let pool = crate::sys::make_pool(4);
+    let (_a, b, n0, n1) = crate::props::c19::same_named_builders(&pool);
+    let mut d = b.build();
+    let mut world = shred::World::empty();
+    d.setup(&mut world);
+    let r = std::panic::catch_unwind(std::panic::AssertUnwindSafe(|| {
+        for _ in 0..300 {
+            d.dispatch(&world);
+        }
+    }));
+    rep.metric("same_named_type_dispatchers", 1);
+    let _ = crate::sys::take_pool_panics();
+    match r {
+        Err(p) => {
+            let msg = payload_str(&*p);
+            rep.violation(
+                if classify(&msg) == PanicKind::BorrowConflict { "borrow_conflict_panic:same_named_types" } else { "unexpected_panic:same_named_types" },
+                &format!("systems over distinct resource types that share the type name {:?} / {:?}: a dispatch panicked: {}", n0, n1, msg),
+                case_no,
+                J::Null,
+            );
+        }
+        Ok(()) => rep.nontrivial(0x5a3e_0101),
+    }
+}
+
 /// C02 / C03 (one shard in the quick tier, four in the thorough tier): a builder with more than 2^16 stages (every filler system is
 /// followed by a barrier), then a few named systems behind the last barrier that depend on one
 /// another. Dependants sit strictly later than what they depend on, and nothing registered behind
@@ -1300,6 +1331,10 @@ pub fn run(args: &Args, prop: &str, up: &'static str, quick: u64, thorough: u64,
         let execute = execute_every > 0 && (c % execute_every == 0 || tiny());
         if (prop == "c02" || prop == "c03") && c == 11 && !tiny() && args.scale >= 1.0 && args.shard < if args.thorough { 4 } else { 1 } {
             guard_case(&mut rep, c, |rep| deep_plan_case(&mut rng, up, rep, c));
+            continue;
+        }
+        if prop == "c01" && c % 300 == 17 && !tiny() {
+            guard_case(&mut rep, c, |rep| c01_same_named_types(rep, c));
             continue;
         }
         if prop == "c12" && c % 40 == 13 {
